@@ -12,7 +12,7 @@ RULE = ("greedy, kk, multifit (iterations in {1,2,3,5,10,20}), round-robin on sm
         "(k 2..8, up to 48 items, T up to 10^6), the tight LPT family, the list-scheduling killer presented ascending, and adaptive ratio-climbing (hill-climb one value at a time "
         "to maximise the observed ratio heuristic/optimum); non-trivial = the heuristic's largest sum differs from the optimum; distinct on (algorithm, iterations, numbins, value sequence)")
 ASSUMPTIONS = ["ratio bounds are checked for k >= 2 only", "bounds are loose: quality regressions inside the bounds are C14's business"]
-FLOORS = {"quick": {"distinct_nontrivial": 5000}, "thorough": {"distinct_nontrivial": 50000}}
+FLOORS = {"quick": {"distinct_nontrivial": 5000}, "thorough": {"distinct_nontrivial": 25000}}
 ALGS = ("greedy", "kk", "multifit", "roundrobin")
 
 
